@@ -457,10 +457,15 @@ func (d *Driver) dt() int64 {
 
 func cmdRandom(profile string, seed int64, steps, runs int, out string) error {
 	// "exp<profile>": the same driver, with an export / re-import at random block boundaries (C15)
-	expProb := 0.0
+	expProb, lqProb := 0.0, 0.0
 	if strings.HasPrefix(profile, "exp") {
 		profile = strings.TrimPrefix(profile, "exp")
 		expProb = 0.15
+	}
+	// "lq<profile>": list queries (C20) at random block boundaries and at the end of each run
+	if strings.HasPrefix(profile, "lq") {
+		profile = strings.TrimPrefix(profile, "lq")
+		lqProb = 0.12
 	}
 	f, err := os.Create(out)
 	if err != nil {
@@ -501,6 +506,12 @@ func cmdRandom(profile string, seed int64, steps, runs int, out string) error {
 				return err
 			}
 			n += 2
+			if lqProb > 0 && (d.chance(lqProb) || n >= steps) {
+				if err := r.Step(M{"a": "ListQueries", "full": n >= steps}); err != nil {
+					return err
+				}
+				n++
+			}
 			if expProb > 0 && d.chance(expProb) {
 				if err := r.Step(M{"a": "ExportImport"}); err != nil {
 					return err
